@@ -214,6 +214,35 @@ def _r24g(chk, repo) -> None:
     chk.floor("R24g.linter_methods", 8)
 
 
+def _r24h(chk, repo, mod) -> None:
+    """Every sequenced file becomes a task, whichever runner dispatches it."""
+    from ..flowutil import must_pass
+
+    n = 0
+    for q, f in mod.functions():
+        if not q.endswith(".iter_partials"):
+            continue
+        cfg = cfg_of(f)
+        for l in [x for x in walk_local(f) if isinstance(x, ast.For)]:
+            ys = [st for b in l.body for st in ast.walk(b) if isinstance(st, ast.Expr) and isinstance(st.value, (ast.Yield, ast.YieldFrom))]
+            if not ys:
+                continue
+            n += 1
+            chk.require(
+                (any(l.body[0] is y for y in ys) or must_pass(cfg, l.body[0], l, ys)) and not any(isinstance(x, ast.Break) for b in l.body for x in ast.walk(b)), "R24h", l,
+                f"{q}: a path through the loop over the files to lint reaches the next file without yielding a task for this one (a test made in the dispatching process, with the run-wide "
+                "config): the file is dropped here although the per-file decision -- made where the file is loaded, with the file's own config -- may differ; serial and parallel runs then disagree",
+                detail=f"{q}: every sequenced file yields a task",
+            )
+        for st in walk_local(f):
+            tg = st.target if isinstance(st, ast.AugAssign) else (st.targets[0] if isinstance(st, ast.Assign) and len(st.targets) == 1 else None)
+            if isinstance(tg, ast.Attribute) and tg.attr == "skipped_file_count":
+                chk.fail("R24h", st, f"{q} counts a skipped file while dispatching: the skip decision belongs to the load of the file (its own config), the runner only counts SQLFluffSkipFile it receives",
+                         detail=f"{q}: no skip counting at dispatch")
+    chk.count("R24h.dispatch_loops", n)
+    chk.floor("R24h.dispatch_loops", 2)
+
+
 def run(chk) -> None:
     repo = chk.repo
     chk.rule("R24a", "every render->pack->lint site uses the task's filename, the runner's root config and the task's fix flag; the deferred task packet carries filename, root config, fix and user rules")
@@ -230,6 +259,8 @@ def run(chk) -> None:
     _r24f(chk, repo)
     chk.rule("R24g", "a Linter carries nothing from one file to the next: no method of Linter other than __init__ stores to self (attribute, item of an attribute, or an in-place change of an attribute) -- the serial runner reuses one Linter for every file while a worker builds a fresh one per task")
     _r24g(chk, repo)
+    chk.rule("R24h", "each runner's iter_partials yields a task for every file its file sequence produces (no test in the dispatching process drops a file, no skip is counted there): whether a file is skipped is decided once, where it is loaded with its own config, identically for every process count")
+    _r24h(chk, repo, mod)
 
 
 # ---------------------------------------------------------------------------
@@ -985,6 +1016,12 @@ _APPLY_COMMENT = (
 )
 
 VARIANTS = [
+    Variant(
+        "parallel-dispatch-skips-large-files-with-the-root-limit", RUNNER,
+        "            ):\n                yield (\n                    fname,\n                    DeferredRenderTask(\n",
+        "            ):\n                if len(fname) > int(self.config.get(\"large_file_skip_byte_limit\") or 0) > 0:\n                    continue\n                yield (\n                    fname,\n                    DeferredRenderTask(\n",
+        "R24h", "ParallelRunner.iter_partials", "seeded C24-8 family: a file dropped at dispatch under the run-wide config",
+    ),
     Variant(
         "rule-pack-memoised-on-the-linter", LINTER,
         "        cfg = config or self.config\n        return rs.get_rulepack(config=cfg)\n",
